@@ -15,6 +15,7 @@
 // Single-threaded lines print the observation of that call.  mt_buf / mt_val lines run threads on
 // the real code and print a canonical summary computed by the oracle below: schedule-dependent
 // quantities (batch boundaries, number of successful updates) are not printed.
+#define VH_ALLOC_FAULTS
 #include "common.h"
 #include <atomic>
 #include <chrono>
@@ -30,6 +31,8 @@ using namespace rkcommon;
 struct Slow
 {
   std::vector<int> d;
+  bool operator==(const Slow &o) const { return d == o.d; }
+  bool operator!=(const Slow &o) const { return d != o.d; }
   Slow() {}
   Slow(const Slow &o) : d(o.d) {}
   Slow(Slow &&o) noexcept : d(std::move(o.d)) {}
@@ -147,6 +150,7 @@ static std::string show_val(Elem e)
 
 struct IBuf
 {
+  virtual std::string pushFail(int p, int x) = 0;
   virtual ~IBuf() {}
   virtual void push(int p, int x, bool rvalue) = 0;
   virtual std::string consume() = 0;
@@ -165,6 +169,19 @@ struct BufImpl : IBuf
       const T t = Pay<T>::make(p, x);
       b.push_back(t);
     }
+  }
+  // push_back of an lvalue while the next allocation (the element's copy or the vector's growth) fails: bad_alloc,
+  // and the buffer - including what size()/empty() report - is what it was
+  std::string pushFail(int p, int x) override
+  {
+    if (std::is_same<T, int>::value)
+      return "bad-op";   // no allocation is certain to happen for a trivially copyable element
+    const T t = Pay<T>::make(p, x);
+    bool threw = false;
+    vh::failAllocIn = 1;
+    try { b.push_back(t); } catch (const std::bad_alloc &) { threw = true; }
+    vh::failAllocIn = 0;
+    return threw ? "bad_alloc" : "nofail";
   }
   std::string consume() override
   {
@@ -185,6 +202,7 @@ struct IVal
 {
   virtual ~IVal() {}
   virtual void assign(int x) = 0;
+  virtual void assignZero() = 0;
   virtual bool update() = 0;
   virtual std::string get(bool byRef) = 0;
 };
@@ -205,6 +223,9 @@ struct ValImpl : IVal
     }
   }
   void assign(int x) override { *v = Pay<T>::make(0, x); }
+  // the value-initialised payload (0 / empty string / empty vector): equal to what a moved-from or default-constructed
+  // payload looks like, but still an assignment the consumer must receive
+  void assignZero() override { *v = T(); }
   bool update() override
   {
     bool r = v->update();
@@ -483,12 +504,21 @@ int main()
       B->push(int(vh::to_ll(w[1])), int(vh::to_ll(w[2])), op == "pushm");
       return "ok";
     }
+    if (op == "push_fail") {
+      if (!B || w.size() != 3) return "bad-op";
+      return B->pushFail(int(vh::to_ll(w[1])), int(vh::to_ll(w[2])));
+    }
     if (op == "consume") return B ? B->consume() : "bad-op";
     if (op == "size") return B ? std::to_string(B->size()) : "bad-op";
     if (op == "empty") return B ? vh::bit(B->empty()) : "bad-op";
     if (op == "assign" && w.size() == 2) {
       if (!V) return "bad-op";
       V->assign(int(vh::to_ll(w[1])));
+      return "ok";
+    }
+    if (op == "assignz") {
+      if (!V) return "bad-op";
+      V->assignZero();
       return "ok";
     }
     if (op == "update") return V ? vh::bit(V->update()) : "bad-op";
